@@ -117,6 +117,135 @@ Proof.
   unfold release_tag_holds. cbn [fst snd]. rewrite !andb_true_iff, N.eqb_eq, !N.leb_le. tauto.
 Qed.
 
+(* ---- the statement for every N: the condition spelled "go1." followed by the decimal numeral of
+   N holds exactly when 1 <= N <= the minor version of the toolchain *)
+Definition digit_byte (d : N) : byte := match Byte.of_N (48 + d) with Some b => b | None => x30 end.
+(* the decimal digits of n, least significant first *)
+Fixpoint dec_rev (fuel : nat) (n : N) : bytes :=
+  match fuel with
+  | O => []
+  | S f => digit_byte (n mod 10) :: (if N.ltb n 10 then [] else dec_rev f (n / 10))
+  end.
+Definition dec (n : N) : bytes := rev (dec_rev (S (N.to_nat n)) n).
+Definition go1_prefix : bytes := (* "go1." *) [x67; x6f; x31; x2e].
+
+Fixpoint val_le (l : bytes) : N :=
+  match l with
+  | [] => 0
+  | b :: r => (match digit_val b with Some d => d | None => 0 end) + 10 * val_le r
+  end%N.
+Definition all_digits (l : bytes) : bool := forallb (fun b => match digit_val b with Some _ => true | None => false end) l.
+
+Lemma digit_val_byte d : (d < 10)%N -> digit_val (digit_byte d) = Some d.
+Proof.
+  intros H. assert (d = 0 \/ d = 1 \/ d = 2 \/ d = 3 \/ d = 4 \/ d = 5 \/ d = 6 \/ d = 7 \/ d = 8 \/ d = 9)%N as C by lia.
+  repeat (destruct C as [->|C]; [reflexivity|]). subst d. reflexivity.
+Qed.
+
+Lemma dec_rev_spec : forall fuel n, (N.to_nat n < fuel)%nat ->
+  val_le (dec_rev fuel n) = n /\ all_digits (dec_rev fuel n) = true.
+Proof.
+  induction fuel as [|f IH]; intros n Hf; [lia|].
+  cbn [dec_rev val_le all_digits forallb].
+  assert (n mod 10 < 10)%N as Hm by (apply N.mod_lt; lia).
+  rewrite (digit_val_byte _ Hm). destruct (N.ltb n 10) eqn:E.
+  - apply N.ltb_lt in E. cbn [val_le forallb]. rewrite N.mod_small by exact E. split; [lia|reflexivity].
+  - apply N.ltb_ge in E.
+    assert (N.to_nat (n / 10) < f)%nat as Hq.
+    { assert (n / 10 < n)%N by (apply N.div_lt; lia). lia. }
+    destruct (IH (n / 10)%N Hq) as [Hv Hd]. fold (all_digits (dec_rev f (n / 10))). rewrite Hv, Hd.
+    split; [|reflexivity]. pose proof (N.div_mod n 10 ltac:(lia)). lia.
+Qed.
+
+Lemma parse_digits_app : forall x y a,
+  parse_digits 10 a (x ++ y) = match parse_digits 10 a x with Some v => parse_digits 10 v y | None => None end.
+Proof.
+  induction x as [|b r IH]; intros y a; cbn [app parse_digits]; [reflexivity|].
+  destruct (digit_val b) as [v|]; [|reflexivity]. destruct (N.ltb v 10); [apply IH|reflexivity].
+Qed.
+
+Lemma parse_digits_rev : forall l a, all_digits l = true ->
+  parse_digits 10 a (rev l) = Some (a * 10 ^ N.of_nat (length l) + val_le l)%N.
+Proof.
+  induction l as [|b r IH]; intros a Hd.
+  - cbn. f_equal. lia.
+  - cbn [all_digits forallb] in Hd. apply andb_true_iff in Hd. destruct Hd as [Hb Hr].
+    cbn [rev]. rewrite parse_digits_app, (IH a Hr). cbn [parse_digits val_le length].
+    destruct (digit_val b) as [v|] eqn:E; [|discriminate].
+    assert (v < 10)%N as Hv.
+    { unfold digit_val in E. destruct (N.leb 48 (bN b) && N.leb (bN b) 57) eqn:R; [|discriminate].
+      apply andb_true_iff in R. destruct R as [R1 R2]. apply N.leb_le in R1, R2. inversion E. lia. }
+    apply N.ltb_lt in Hv. rewrite Hv. f_equal. rewrite Nat2N.inj_succ, N.pow_succ_r by lia. lia.
+Qed.
+
+(* the most significant digit of a positive number is not 0 *)
+Lemma dec_rev_last : forall fuel n, (N.to_nat n < fuel)%nat -> (1 <= n)%N ->
+  exists d, (1 <= d <= 9)%N /\ last (dec_rev fuel n) x30 = digit_byte d.
+Proof.
+  induction fuel as [|f IH]; intros n Hf Hn; [lia|].
+  cbn [dec_rev]. destruct (N.ltb n 10) eqn:E.
+  - apply N.ltb_lt in E. exists n. rewrite N.mod_small by exact E. split; [lia|reflexivity].
+  - apply N.ltb_ge in E.
+    assert (N.to_nat (n / 10) < f)%nat as Hq.
+    { assert (n / 10 < n)%N by (apply N.div_lt; lia). lia. }
+    assert (1 <= n / 10)%N as Hq1.
+    { apply N.div_le_lower_bound; lia. }
+    destruct (IH (n / 10)%N Hq Hq1) as (d & Hd & Hl). exists d. split; [exact Hd|].
+    destruct (dec_rev f (n / 10)) as [|c r] eqn:R.
+    + destruct f; [lia|]. cbn [dec_rev] in R. discriminate R.
+    + exact Hl.
+Qed.
+
+Lemma canonical_num_dec n : (1 <= n)%N -> canonical_num (dec n) = Some n.
+Proof.
+  intros Hn. unfold dec.
+  assert (N.to_nat n < S (N.to_nat n))%nat as Hf by lia.
+  destruct (dec_rev_spec _ n Hf) as [Hv Hd].
+  destruct (dec_rev_last _ n Hf Hn) as (d & Hd19 & Hl).
+  set (l := dec_rev (S (N.to_nat n)) n) in *.
+  assert (l <> []) as Hne by (unfold l; cbn [dec_rev]; discriminate).
+  assert (exists r, rev l = digit_byte d :: r) as [r Hr].
+  { destruct (exists_last Hne) as (l' & a & El). rewrite El in Hl |- *. rewrite last_last in Hl. subst a.
+    rewrite rev_app_distr. cbn. eauto. }
+  unfold canonical_num. rewrite Hr.
+  assert (N.leb 49 (bN (digit_byte d)) && N.leb (bN (digit_byte d)) 57 = true) as ->.
+  { assert (d = 1 \/ d = 2 \/ d = 3 \/ d = 4 \/ d = 5 \/ d = 6 \/ d = 7 \/ d = 8 \/ d = 9)%N as C by lia.
+    repeat (destruct C as [->|C]; [reflexivity|]). subst d. reflexivity. }
+  rewrite <- Hr, (parse_digits_rev l 0 Hd), Hv. f_equal; try lia.
+Qed.
+
+Lemma dec_no_dot n : forall fuel, split_dot (rev (dec_rev fuel n)) = None.
+Proof.
+  intros fuel. assert (forall l, (forall b, In b l -> exists d, (d < 10)%N /\ b = digit_byte d) -> split_dot l = None) as H.
+  { induction l as [|c r IH]; intros Hl; [reflexivity|]. cbn [split_dot].
+    destruct (Hl c (or_introl eq_refl)) as (d & Hd & ->).
+    assert (beq (digit_byte d) x2e = false) as ->.
+    { assert (d = 0 \/ d = 1 \/ d = 2 \/ d = 3 \/ d = 4 \/ d = 5 \/ d = 6 \/ d = 7 \/ d = 8 \/ d = 9)%N as C by lia.
+      repeat (destruct C as [->|C]; [reflexivity|]). subst d. reflexivity. }
+    rewrite IH; [reflexivity|]. intros b Hb. apply Hl. right. exact Hb. }
+  apply H. intros b Hb. apply in_rev in Hb. revert n b Hb.
+  induction fuel as [|f IH]; intros n b Hb; [destruct Hb|].
+  cbn [dec_rev] in Hb. destruct Hb as [<-|Hb].
+  - exists (n mod 10)%N. split; [apply N.mod_lt; lia|reflexivity].
+  - destruct (N.ltb n 10); [destruct Hb|]. exact (IH _ _ Hb).
+Qed.
+
+Lemma go_version_go1 n : (1 <= n)%N -> go_version (go1_prefix ++ dec n) = Some (1%N, n).
+Proof.
+  intros Hn. unfold go1_prefix. cbn [app go_version]. change (beq x67 x67 && beq x6f x6f) with true. cbv iota.
+  cbn [split_dot]. change (beq x31 x2e) with false. change (beq x2e x2e) with true. cbv iota.
+  rewrite (canonical_num_dec n Hn). reflexivity.
+Qed.
+
+(* [go1.N] for every N >= 1: it holds exactly up to the toolchain's minor version *)
+Theorem cond_go1_every_minor cfg st n :
+  (1 <= n)%N -> cond_eval cfg st (go1_prefix ++ dec n) = CondVal (N.leb n (c_go_minor cfg)).
+Proof.
+  intros Hn. rewrite (cond_go_version cfg st _ _ (go_version_go1 n Hn)).
+  unfold release_tag_holds. cbn [fst snd]. rewrite N.eqb_refl. cbn [andb].
+  assert (N.leb 1 n = true) as -> by (apply N.leb_le; exact Hn). reflexivity.
+Qed.
+
 (* a guard [c] lets the command run exactly when the condition has the wanted value *)
 Theorem guard_runs_iff cfg st (want : bool) c b w rest :
   guard_of w = Some (want, c) -> rest <> [] -> cond_eval cfg st c = CondVal b ->
@@ -144,6 +273,9 @@ Example ex_versions :
   /\ map holds ["go1.0"; "go1.05"; "go1"; "go1.x"; "go1.2.3"; "go01.2"; "Go1.2"; "go1.-1"; "go1.+1"]
   = repeat CondErr 9.
 Proof. vm_compute. repeat split; reflexivity. Qed.
+
+Example ex_dec : map dec [1; 9; 10; 23; 100; 229; 1234]%N = map b ["1"; "9"; "10"; "23"; "100"; "229"; "1234"].
+Proof. vm_compute. reflexivity. Qed.
 
 Example ex_os_arch :
   map holds ["linux"; "unix"; "amd64"] = repeat (CondVal true) 3
